@@ -146,9 +146,13 @@ func c06(args []string) error {
 		for hops := 0; hops <= mh+1; hops++ {
 			h := len(seeds) % 2
 			hub := fmt.Sprintf("/hub%d/h%d.html", k, hops)
-			run.org.Route(h, hub, htmlPage("hub", []string{fmt.Sprintf("/hub%d/img%d.png", k, hops)},
+			hp := htmlPage("hub", []string{fmt.Sprintf("/hub%d/img%d.png", k, hops)},
 				[]string{fmt.Sprintf("/out/%d/%d/plain.html", k, hops), fmt.Sprintf("/out/%d/%d/dcmatch7.html", k, hops),
-					fmt.Sprintf("http://%s/out/%d/%d/abs.html", run.org.Hosts[h], k, hops), "../rel.html"}))
+					fmt.Sprintf("http://%s/out/%d/%d/abs.html", run.org.Hosts[h], k, hops), "../rel.html"})
+			// an outlink named only in a Link response header (pagination)
+			hp.Headers = map[string]string{"Content-Type": "text/html; charset=utf-8",
+				"Link": fmt.Sprintf("<http://%s/out/%d/%d/linkhdr.html>; rel=\"next\"", run.org.Hosts[h], k, hops)}
+			run.org.Route(h, hub, hp)
 			run.org.Route(h, fmt.Sprintf("/hub%d/img%d.png", k, hops), okImage(k*10+hops))
 			add("hub", hub, hops)
 			// the same as a JSON document: its non-file URLs are outlinks found by the asset extractors
